@@ -22,6 +22,7 @@ type Option struct {
 	Val     uint64
 	IDs     []int64
 	D       int
+	Shape   int // delivery shape of nres / nerr / ack (wire.go); 0 = direct engine call
 }
 
 // Label is the model action label of the option.
@@ -99,6 +100,10 @@ func (s *Sim) Ready(allowSendErr, allowCan, allowDropErr, allowDecodeErr bool) [
 		case "notify.invoke", "handler.cas":
 			out = append(out, Option{Kind: "nrun", ID: k})
 		case "decode":
+			if n.Shape == ShapeNestedGz {
+				out = append(out, Option{Kind: "nwrite", ID: k, Outcome: "err"})
+				continue
+			}
 			out = append(out, Option{Kind: "nwrite", ID: k, Outcome: "ok"})
 			if allowDecodeErr {
 				out = append(out, Option{Kind: "nwrite", ID: k, Outcome: "err"})
@@ -243,18 +248,20 @@ func (s *Sim) apply(o Option) bool {
 		}
 		s.record(o.Label(), s.callObs(c))
 	case "nres", "nerr":
-		n := &Notif{NID: o.ID, Target: o.Target, IsErr: o.Kind == "nerr", Val: o.Val}
+		n := &Notif{NID: o.ID, Target: o.Target, IsErr: o.Kind == "nerr", Val: o.Val, Shape: o.Shape}
 		t := &thread{kind: "notif", id: o.ID, resume: make(chan string), notif: n}
 		n.th = t
 		s.notifs[o.ID] = n
 		f := func() {
+			if o.Shape != ShapeDirect {
+				n.Err = s.deliver(wireNotif(o.Shape, o.Target, n.IsErr, o.Val))
+				return
+			}
 			if n.IsErr {
 				s.Eng.NotifyError(o.Target, &rpcError{o.Val})
 				return
 			}
-			var b bin.Buffer
-			b.PutLong(int64(o.Val))
-			n.Err = s.Eng.NotifyResult(o.Target, &b)
+			n.Err = s.Eng.NotifyResult(o.Target, &bin.Buffer{Buf: resultBody(o.Val)})
 		}
 		if !s.spawn(t, f) {
 			return false
@@ -288,6 +295,12 @@ func (s *Sim) apply(o Option) bool {
 		_, before, _ := s.Eng.VerifC24Snapshot()
 		panicked := func() (p any) {
 			defer func() { p = recover() }()
+			if o.Shape != AckDirect {
+				if err := s.deliver(wireAck(o.Shape, o.IDs)); err != nil {
+					s.viol("*", "ack-delivery-error", "handleMessage(msgs_ack %v, shape %d) failed: %v", o.IDs, o.Shape, err)
+				}
+				return nil
+			}
 			s.Eng.NotifyAcks(o.IDs)
 			return nil
 		}()
